@@ -36,7 +36,8 @@ CheckObs(S, id, o) ==
                       /\ Say(\A i \in 1..Len(L) : o.r.v.list[i].ref = L[i].ref, id, "C12", "layout.clone_reference", why)
                       /\ Say(\A i \in 1..Len(L) : EntryEq(o.r.v.list[i], L[i]), id, "C12", "layout.payload", why)
                       /\ Say(\A i \in 1..Len(L) : L[i].ref = 0 =>
-                               o.r.v.list[i].bare = (a.is_str /\ ~S.typed /\ L[i].xid = 0), id, "C12", "layout.bare_string", why))
+                               o.r.v.list[i].bare = ((\E j \in 1..Len(a.strs) : a.strs[j] = L[i].d) /\ ~S.typed /\ L[i].xid = 0),
+                            id, "C12", "layout.bare_string", why))    \* a.strs: the data values that are plain strings
                 /\ Say(o.r.v.generator /\ o.r.v.version, id, "C12", "header.generator_version", why)
                 /\ Say(o.r.v.key_map_declared = a.key_map_used, id, "C12", "header.key_map", why)
                 /\ Say(o.r.v.value_map_declared = a.value_map_used, id, "C12", "header.value_map", why)
